@@ -867,7 +867,13 @@ func main() {
 		sort.Strings(ids)
 		fmt.Println(strings.Join(ids, " "))
 	default:
+		if f, ok := subcommands[os.Args[1]]; ok {
+			f(os.Args[2:])
+			return
+		}
 		fmt.Fprintln(os.Stderr, "unknown command", os.Args[1])
 		os.Exit(3)
 	}
 }
+
+var subcommands = map[string]func(args []string){}
